@@ -1339,7 +1339,8 @@ fn check_freq_new<A: Alphabet>(rows: &[Vec<f32>], fails: &mut Fails) -> bool {
         .iter()
         .map(|r| (r.iter().map(|&x| x as f64).sum::<f64>() - 1.0).abs())
         .collect();
-    let must_reject = devs.iter().any(|&d| d > MUST_REJECT_DEV);
+    // a row containing NaN (or +inf and -inf) has no sum at all: it does not sum to one either
+    let must_reject = devs.iter().any(|&d| d.is_nan() || d > MUST_REJECT_DEV);
     match catch(|| FrequencyMatrix::<A>::new(pm::dense_f32::<A>(rows)).is_ok()) {
         Err(p) => push(
             fails,
@@ -1363,10 +1364,10 @@ fn run_frequency_new(ctx: &mut Ctx, rep: &mut Report, index: &mut u64) {
     rep.space(
         "frequency_new",
         "FrequencyMatrix::new on matrices of 1..=3 rows (dna) / 1..=2 rows (protein) in which one row (every position) is a base row (dna: uniform, one-hot, skewed, all-0.2; protein: 1/20, sixteen 1/16) with \
-         d in {0, +-.005, +-.011, +-.5} added to one column (every column), the other rows being valid. Oracle: rejection is demanded when the exact deviation of a row sum exceeds 0.0105 \
+         d in {0, +-.005, +-.011, +-.5, NaN, +inf, -inf} added to one column (every column; NaN / infinities make the row sum NaN or infinite), the other rows being valid. Oracle: rejection is demanded when the exact deviation of a row sum exceeds 0.0105 \
          (documented tolerance 0.01 plus rounding); nothing is demanded otherwise. non-trivial = rejection demanded",
     );
-    let devs: [f32; 7] = [0.0, 0.005, -0.005, 0.011, -0.011, 0.5, -0.5];
+    let devs: [f32; 10] = [0.0, 0.005, -0.005, 0.011, -0.011, 0.5, -0.5, f32::NAN, f32::INFINITY, f32::NEG_INFINITY];
     fn go<A: Alphabet>(
         alpha: &'static str,
         bases: &[Vec<f32>],
